@@ -42,7 +42,7 @@ def enabled(prefix):
             blocks = [0]
         elif k == 'enter':
             inside = True
-        elif k == 'exit':
+        elif k in ('exit', 'exit-raise'):
             inside = False
     out = [('add', 'X', 0), ('add', 'R', 1), ('add', 'M', 0), ('add', 'Wreg', 0), ('add', 'B', 0),
            ('sub', 2, BODY1), ('sub', 1, BODY2), ('sub', 2, BODY3), ('sub', 2, BODY4), ('sub', 1, BODY5), ('subreg', BODY1)]
@@ -55,6 +55,7 @@ def enabled(prefix):
     out += [('apply',), ('flatten',), ('nest',), ('setreg', 5.0), ('setrep', 3)]
     if inside:
         out.append(('exit',))
+        out.append(('exit-raise',))
     else:
         out += [('enter', 'G'), ('enter', 'Rdo')]
     return out
@@ -143,6 +144,10 @@ class HistFamily(Family):
             res.trivial = True
             return res
         res.trivial = len(ref['ops']) < 2
+        for v, how in ((ref, 'without observations'), (got, 'with observations %r' % (plc,))):
+            if v.get('not-restored'):
+                res.fail('C03-override-not-restored', 'mutations %r, %s: after the temporary override was left, %s' % (muts, how, v['not-restored']))
+                break
         diffs = diff_vectors(ref, got)
         if diffs:
             # counterfactual attribution to the listed finding F2 (mc/triage.py)
@@ -170,7 +175,9 @@ def run(events):
                     pass
             else:
                 s.apply(ev)
-        return s.vector()
+        v = s.vector()
+        v['not-restored'] = s.not_restored
+        return v
     except Exception as e:
         return 'EXC:%s:%s' % (type(e).__name__, str(e)[:120])
     finally:
